@@ -105,6 +105,7 @@ class C17(Prop):
 
     def start(self, w, cfg):
         self.scopes = None
+        self.skip_cables = False
         self.cable_info = {}
 
     @staticmethod
@@ -148,6 +149,24 @@ class C17(Prop):
                     if k in sanit and sanit[k] != e.name:
                         w.count("probe.sanitised_collision")
                     sanit[k] = e.name
+                if kind == "cable":
+                    # the bits of a bus are written as nets <identifier>_<index>_ : they are siblings too
+                    bitids = {}
+                    for e in elems:
+                        if e.is_array or len(e.wires) > 1:
+                            for k in range(len(e.wires)):
+                                bitids[("%s_%d_" % (e["EDIF.identifier"], e.lower_index + k)).lower()] = e
+                    for e in elems:
+                        if not (e.is_array or len(e.wires) > 1) and e["EDIF.identifier"].lower() in bitids:
+                            sig = "C17.ident.collision_with_bus_bit@cable"
+                            if sig in self.known:
+                                w.count("known." + sig)
+                                self.skip_cables = True
+                            else:
+                                raise Violation("C17.ident.collision_with_bus_bit", "cable",
+                                                "net %r gets identifier %r, which is also written for a bit of bus %r" % (
+                                                    e.name[:30], e["EDIF.identifier"][:40],
+                                                    bitids[e["EDIF.identifier"].lower()].name[:30]))
                 self.scopes.append((kind, [e.name for e in elems]))
                 if kind == "cable":
                     for e in elems:
@@ -195,6 +214,8 @@ class C17(Prop):
                     if [i.name for i in d.children] != exp["instance"]:
                         raise Violation("C17.reread.name_lost", "instance", "instances %r vs %r" % (
                             [i.name for i in d.children][:3], exp["instance"][:3]))
+                    if self.skip_cables:
+                        continue
                     plain = [c for c in exp["cable"] if not re.search(r"\[\d+\]$", c)]
                     gotc = [c.name for c in d.cables]
                     missing = [c for c in plain if c not in gotc]
